@@ -183,7 +183,7 @@ def oracle(case, out, m):
 # data part and every handler cuts the name there; the wire cases above call query_datalen()/unpack_data() themselves, so
 # this stage sends whole sessions (version, login, codec switch, single-fragment upstream packets) through the real
 # tunnel_dns (harness/h_srvhist.c) with the server configured with the clients' domain, the same domain in other case, and
-# a wildcard for its first label (first labels of 1..63 characters).  Oracle from the property text: the bytes written to
+# a wildcard for its first label (first labels of 1..63 characters), and on a slot taken over from a client that had switched codec.  Oracle from the property text: the bytes written to
 # the tun device are exactly the payload the name carried.  Then model == implementation per event (Server.recv_datagram).
 
 def gen_extraction(seed, tier):
@@ -192,17 +192,28 @@ def gen_extraction(seed, tier):
     firsts = [1, 2, 3, 10, 63] if tier == 'quick' else [1, 2, 3, 4, 7, 10, 31, 62, 63]
     alpha = b'abcdefghijklmnopqrstuvwxyz0123456789-'
     for k in firsts:
-        for how in ('same', 'case', 'wild'):
+        for how in ('same', 'case', 'wild', 'reuse'):
             for codec in range(4):
+                if how == 'reuse' and codec:
+                    continue            # the newcomer on a re-used slot keeps Base32 and therefore sends no codec switch
                 g = srvlib.HistGen(rng, adversarial=0.0)
                 lab = bytes(rng.choice(alpha[:26]) for _ in range(1)) + bytes(rng.choice(alpha) for _ in range(k - 1))
                 if lab.endswith(b'-'):
                     lab = lab[:-1] + b'x'
                 g.domain = lab + rng.choice([b'.x.org', b'.Example.COM', b'.b'])
-                g.srv_domain = {'same': g.domain, 'case': g.domain.swapcase(), 'wild': b'*' + g.domain[len(lab):]}[how]
+                g.srv_domain = {'same': g.domain, 'case': g.domain.swapcase(), 'wild': b'*' + g.domain[len(lab):], 'reuse': g.domain}[how]
                 g.check_ip = 1
                 g.no_case_relay = True  # a relay that rewrites letter case destroys Base64/Base64u/Base128 payloads by design
                 g.qtype = rng.choice(g.QTYPES)
+                if how == 'reuse':
+                    # an earlier client on the same slot negotiated another codec and fell silent for more than 60 s
+                    p0 = srvlib.Session(g, (4, bytes([192, 0, 2, 99]), 3999))
+                    g.version(p0)
+                    g.login(p0)
+                    p0.rs = (p0.rs + 1) & 0xffff
+                    cm0 = srvlib.b32c(p0.rs >> 10) + srvlib.b32c(p0.rs >> 5) + srvlib.b32c(p0.rs)
+                    g.emit_query(p0.addr, b's' + srvlib.b32c(p0.uid) + srvlib.b32c(rng.choice([6, 26, 7])) + cm0 + b'.' + g.domain)
+                    g.now += rng.choice([61, 62, 300])
                 s = srvlib.Session(g, (4, bytes([192, 0, 2, 7]), 4000 + k))
                 g.version(s)
                 g.login(s)
